@@ -59,6 +59,11 @@ class Check:
         if len(self.samples) < cap:
             self.samples.append(x)
 
+    def phase(self, name):
+        now = time.time()
+        self.extra.setdefault("phases_s", {})[name] = round(now - getattr(self, "_pt", self.t0), 2)
+        self._pt = now
+
     def note(self, s):
         self.notes.append(s)
         print("NOTE: " + s)
